@@ -343,8 +343,12 @@ fn merge_step(nc: usize, nb: usize, delta: f64) {
         chk!("merge_output_positive_weight", cc > 0.0);
         prev = mean;
     }
-    cov!("fused", oc < n_in);
-    cov!("not_fused", oc == n_in);
+    // delta = 1.1 fuses everything, delta = 1000 nothing: each configuration must reach its own case
+    if delta < 2.0 {
+        cov!("fused", oc < n_in);
+    } else {
+        cov!("not_fused", oc == n_in);
+    }
 }
 harness!(td_merge_step_c1b1_fuse, unwind 5, { merge_step(1, 1, 1.1) });
 harness!(td_merge_step_c1b1_keep, unwind 5, { merge_step(1, 1, 1000.0) });
